@@ -94,3 +94,74 @@ Theorem mon17L_is_the_three_groups : forall inp obs,
   mon17L inp obs = if sx_eqb obs (L [A (-1)]) then [] else monL_counts inp obs ++ monL_release inp obs ++ monL_results inp obs.
 Proof. exact R17LProofs.mon17L_split. Qed.
 Print Assumptions mon17L_is_the_three_groups.
+
+(** ** Non-vacuity *)
+
+(** An observation of the REAL limiter (limit 1; callers 0 and 1 use
+    ReplicateComposite for objects 0 and 1, caller 2 ReplicateMultiple for
+    both; corpus/C17L/seed-C17-d...): the second and third caller wait, each
+    composite caller reads the sink after giving the permit back.  The judge
+    accepts it and the monitor is silent. *)
+Definition ex_inp : sx :=
+  L [A 2; L [A 1; A 1]; L [L [A 0]; L [A 1]; L [A 0; A 1]]; L [A 0; A 1]; L []; L [L [A 0; A 0]; L [A 0; A 1]; L [A 0; A 2]; L [A 1; A 0; A 0]; L [A 1; A 0; A 0]; L [A 1; A 0; A 0]; L [A 1; A 1; A 0]; L [A 1; A 1; A 0]; L [A 1; A 1; A 0]; L [A 1; A 2; A 0]; L [A 1; A 2; A 0]; L [A 1; A 2; A 0]; L [A 1; A 2; A 0]]; L [A 2; A 2; A 0]].
+Definition ex_obs : sx :=
+  L [L [L [L [A 1; A 1; A 0; L [A 0]]; L [A 0]; L [A 0]]; L [L [A 1; A 1; A 0; L [A 0]]; L [A 2]; L [A 0]]; L [L [A 1; A 1; A 0; L [A 0]]; L [A 2]; L [A 2]]; L [L [A 1; A 0; A 1; L [A 0]]; L [A 2]; L [A 2]]; L [L [A 1; A 0; A 3; L [A 0]]; L [A 1; A 1; A 0; L [A 1]]; L [A 2]]; L [L [A 3; A 0]; L [A 1; A 1; A 0; L [A 1]]; L [A 2]]; L [L [A 3; A 0]; L [A 1; A 0; A 1; L [A 1]]; L [A 2]]; L [L [A 3; A 0]; L [A 1; A 0; A 3; L [A 1]]; L [A 1; A 1; A 0; L [A 0]]]; L [L [A 3; A 0]; L [A 3; A 0]; L [A 1; A 1; A 0; L [A 0]]]; L [L [A 3; A 0]; L [A 3; A 0]; L [A 1; A 0; A 1; L [A 0]]]; L [L [A 3; A 0]; L [A 3; A 0]; L [A 1; A 1; A 0; L [A 1]]]; L [L [A 3; A 0]; L [A 3; A 0]; L [A 1; A 0; A 1; L [A 1]]]; L [L [A 3; A 0]; L [A 3; A 0]; L [A 3; A 0]]]; A 1; A 1; L [A 0; A 1]; L [L [A 0; A 0; A 0]; L [A 1; A 0; A 1; A 0; L [A 0]; A 0]; L [A 0; A 1; A 0]; L [A 0; A 2; A 0]; L [A 2; A 0; A 1; A 0; L [A 0]; A 0; L []; A 0]; L [A 1; A 0; A 0; A 1; L [A 0]; A 0]; L [A 2; A 0; A 0; A 1; L [A 0]; A 0; L []; A 0]; L [A 1; A 0; A 0; A 3; L [A 0]; A 0]; L [A 1; A 1; A 1; A 0; L [A 1]; A 0]; L [A 2; A 0; A 0; A 3; L [A 0]; A 0; L []; A 0]; L [A 3; A 0; A 0; A 0]; L [A 2; A 1; A 1; A 0; L [A 1]; A 0; L []; A 0]; L [A 1; A 1; A 0; A 1; L [A 1]; A 0]; L [A 2; A 1; A 0; A 1; L [A 1]; A 0; L []; A 0]; L [A 1; A 1; A 0; A 3; L [A 1]; A 0]; L [A 1; A 2; A 1; A 0; L [A 0]; A 0]; L [A 2; A 1; A 0; A 3; L [A 1]; A 0; L []; A 0]; L [A 3; A 1; A 0; A 0]; L [A 2; A 2; A 1; A 0; L [A 0]; A 0; L []; A 0]; L [A 1; A 2; A 0; A 1; L [A 0]; A 0]; L [A 2; A 2; A 0; A 1; L [A 0]; A 0; L []; A 0]; L [A 1; A 2; A 1; A 0; L [A 1]; A 0]; L [A 2; A 2; A 1; A 0; L [A 1]; A 0; L []; A 0]; L [A 1; A 2; A 0; A 1; L [A 1]; A 0]; L [A 2; A 2; A 0; A 1; L [A 1]; A 0; L []; A 0]; L [A 3; A 2; A 0; A 0]]].
+Example accepted_observation : agreeL ex_inp ex_obs = true /\ mon17L ex_inp ex_obs = [].
+Proof. vm_compute. split; reflexivity. Qed.
+
+(** What the seeded change C17-d (ReplicateComposite forwarded to the base
+    replicator without the semaphore) was observed to do with limit 1: a
+    composite caller is inside the base replicator, a ReplicateMultiple caller
+    gets the permit nevertheless - two calls in flight.  The judge rejects the
+    observation and clause 22 fires. *)
+Example seeded_bypass_is_flagged :
+  let inp := L [A 2; L [A 1; A 1]; L [L [A 0]; L []]; L []; L []; L [L [A 0; A 0]; L [A 0; A 1]]; L [A 2]] in
+  let obs := L [L [L [L [A 1; A 1; A 0; L [A 0]]; L [A 0]]; L [L [A 1; A 1; A 0; L [A 0]]; L [A 3; A 0]]]; A 1; A 2; L [];
+                L [L [A 0; A 0; A 0]; L [A 1; A 0; A 1; A 0; L [A 0]; A 0]; L [A 0; A 1; A 0]; L [A 3; A 1; A 0; A 0]]] in
+  agreeL inp obs = false /\ mon17L inp obs = [22]%Z.
+Proof. vm_compute. split; reflexivity. Qed.
+
+(** A limiter that does not release on the error path, as observed: caller 0's
+    copy fails (NOT_FOUND from the source), caller 1 stays blocked although no
+    copy is in flight.  Clause 26 fires. *)
+Example leaked_permit_is_flagged :
+  let inp := L [A 2; L [A 1; A 1]; L [L [A 0]; L []]; L []; L []; L [L [A 0; A 0]; L [A 0; A 1]; L [A 1; A 0; A 0]; L [A 1; A 0; A 0]]; L []] in
+  let obs := L [L [L [L [A 1; A 1; A 0; L [A 0]]; L [A 0]]; L [L [A 1; A 1; A 0; L [A 0]]; L [A 2]]; L [L [A 1; A 0; A 1; L [A 0]]; L [A 2]]; L [L [A 3; A 5]; L [A 2]]];
+                A 1; A 1; L [];
+                L [L [A 0; A 0; A 0]; L [A 1; A 0; A 1; A 0; L [A 0]; A 0]; L [A 0; A 1; A 0]; L [A 2; A 0; A 1; A 0; L [A 0]; A 5; L []; A 0]; L [A 1; A 0; A 0; A 1; L [A 0]; A 0]; L [A 2; A 0; A 0; A 1; L [A 0]; A 5; L []; A 0]; L [A 3; A 0; A 5; A 0]]] in
+  agreeL inp obs = false /\ mon17L inp obs = [26]%Z.
+Proof. vm_compute. split; reflexivity. Qed.
+
+Local Open Scope nat_scope.
+
+(** A run of the extended system: limit 1, caller 0 ReplicateComposite(0),
+    caller 1 ReplicateSingle(1).  Caller 1 queues, is handed the permit when
+    caller 0's copy ends, and both read the sink afterwards. *)
+Example mixed_run :
+  let kinds := [KComposite 0; KSingle 1] in
+  let tr := [EStart 0; ETau 0 false; EStart 1; ETau 1 false; ERel 0 0; ERel 0 0; ETau 1 false;
+             ERel 1 0; ERel 0 0; ERel 1 0; ERel 1 0] in
+  match xrun kinds (MLimit 1) (xinit kinds [[0]; [1]] [0; 1] []) tr with
+  | Some x => xresult kinds x 0 = Some 0%Z /\ xresult kinds x 1 = Some 0%Z /\ snk (xb x) = [0; 1] /\
+              maxall (xb x) = 1 /\ cur (xb x) = 0 /\ semq (xb x) = []
+  | None => False
+  end.
+Proof. vm_compute. repeat split; reflexivity. Qed.
+
+(** ... and in the middle of it the hypothesis of the waiting clause is met:
+    caller 1 is queued while caller 0 holds the only permit. *)
+Example mixed_run_waiting :
+  let kinds := [KComposite 0; KSingle 1] in
+  match xrun kinds (MLimit 1) (xinit kinds [[0]; [1]] [0; 1] []) [EStart 0; ETau 0 false; EStart 1; ETau 1 false] with
+  | Some x => semq (xb x) = [1] /\ cur (xb x) = 1 /\ holders (xb x) = 1 /\ copies (xb x) = 1
+  | None => False
+  end.
+Proof. vm_compute. repeat split; reflexivity. Qed.
+
+(** [limit_further_copies_run_at_once] with two permits and two late callers. *)
+Example two_late_callers :
+  match run (MLimit 2) (init_state [[0]; [1]] [0; 1] []) (arrivals [0; 1]) with
+  | Some s => copies s = 2 /\ cur s = 2
+  | None => False
+  end.
+Proof. vm_compute. split; reflexivity. Qed.
